@@ -1,6 +1,5 @@
 """Jitter twins of a document: every absolute geometry coordinate is moved by a small deterministic
-pseudo-random amount (<= amp, default 0.2 % of the viewBox extent).  Used to attribute a render mismatch in
-stroked documents: skia-pathops' simplify occasionally loses part of a heavily self-overlapping (but purely
+pseudo-random amount (<= amp, default 0.2 % of the viewBox extent).  Used to attribute a render mismatch: skia-pathops' simplify occasionally loses part of a heavily self-overlapping (but purely
 polygonal) stroke outline - dashes with projecting caps around an acute corner - and such failures vanish
 under tiny perturbations, whereas errors of the logic around the engine (wrong width, cap/join mapping, dash
 offset, stacking, opacity) do not."""
